@@ -1,1 +1,9 @@
-pub fn x(){}
+//! Verification harness for Chylynsky/poster-rs: property-based testing and fuzzing.
+pub mod api;
+pub mod driver;
+pub mod exec;
+pub mod gen;
+pub mod mockio;
+pub mod props;
+pub mod refcodec;
+pub mod world;
